@@ -36,6 +36,16 @@ def handle : List String → String
       | .error e => "err\t" ++ e.name
       | .ok o => "ok\t" ++ " ".intercalate ((specScores o).map showScore?)
     | _, _ => "bad-op"
+  | ["raw4", s] =>     -- the exact v4 value before clamping and rounding (for finding rounding ties; not an oracle)
+    match decodeStr s with
+    | some str =>
+      match construct .v4 str with
+      | .ok (.o4 o) =>
+        match Spec.V4.rawScore (assignment c!"X" o.orig) with
+        | some x => s!"ok\t{x.num}/{x.den}"
+        | none => "none"
+      | _ => "err"
+    | none => "bad-op"
   | ["acc", v, s] =>
     let g : Option Grammar.G := if v = "2" then some Grammar.g2 else if v = "3" then some Grammar.g3 else if v = "4" then some Grammar.g4 else none
     match g, decodeStr s with
